@@ -104,6 +104,20 @@ func VH_Router_setup() {
 			vRoutesAPI = append(vRoutesAPI, rt)
 			vRegs = append(vRegs, vReg{stmt: stmt, methods: methods, path: f[2]})
 			vHdr = append(vHdr, nil)
+		case "RS": // Routes() with the method text exactly as given ("*", lower case, lists)
+			stmt := len(vRoutesAPI)
+			rt := vRouter.Routes(f[2], f[1], vMarker(stmt))
+			var methods []string
+			if f[1] == "*" {
+				methods = vAllMethods
+			} else {
+				for _, m := range strings.Split(f[1], ",") {
+					methods = append(methods, strings.ToUpper(strings.TrimSpace(m)))
+				}
+			}
+			vRoutesAPI = append(vRoutesAPI, rt)
+			vRegs = append(vRegs, vReg{stmt: stmt, methods: methods, path: f[2]})
+			vHdr = append(vHdr, nil)
 		case "H":
 			stmt, _ := strconv.Atoi(f[1])
 			var pairs []string
@@ -208,8 +222,12 @@ func VH_Router_serve() {
 	header := http.Header{}
 	hv := vx.ParamInt("hv")
 	for _, name := range vHdrNames {
-		if vx.Bool() {
+		// absent / present with one value / present with an empty value list (a header map built by hand)
+		switch vx.Choice(3) {
+		case 1:
 			header[name] = []string{vx.String(hv)}
+		case 2:
+			header[name] = nil
 		}
 	}
 	req := &http.Request{Method: method, URL: &url.URL{Path: path}, Header: header}
